@@ -31,7 +31,7 @@ ASSUMPTIONS = [
     'mask store behaviour); part A covers them',
     'a failed update must raise at the client (RuntimeError) or carry error_details, and change nothing',
 ]
-REQUIRED_COUNTERS = ['namespaces_checked', 'encode_contract_evaluations', 'updates_applied', 'failed_updates_checked',
+REQUIRED_COUNTERS = ['supporter_deltas_given_as_positioned_views', 'user_updates_given_as_positioned_views', 'namespaces_checked', 'encode_contract_evaluations', 'updates_applied', 'failed_updates_checked',
                      'readbacks_compared', 'overwrites', 'algorithm_deltas_applied', 'supporter_updates']
 MIN_DISTINCT = {'quick': 150, 'thorough': 3000}
 
@@ -127,12 +127,23 @@ def model_value(spec):
   return ['any', 'type.googleapis.com/vv.Blob', spec[1]]
 
 
-def build_md(entries):
+def build_md(entries, position=None):
+  """Metadata holding `entries` (absolute namespaces). With `position` the returned object is
+  a *view positioned at that namespace* of the same store (what `md.ns('tuner')` hands to a
+  policy that keeps working inside its namespace): its absolute content is the same."""
   from vizier import pyvizier as vz
   md = vz.Metadata()
   for ns, key, spec in entries:
     md.abs_ns(ns)[key] = make_value(spec)
+  if position is not None:
+    return md.abs_ns(vz.Namespace(tuple(position)))
   return md
+
+
+def pick_position(prng, entries):
+  if not entries or prng.random() < 0.5:
+    return None
+  return list(prng.choice(entries)[0]) if prng.random() < 0.7 else ['elsewhere']
 
 
 def gen_entries(rng):
@@ -236,11 +247,18 @@ def run_store_case(ctx, index, backend, steps):
       if kind == 'algo':
         ctx.count('algorithm_deltas_applied')
     elif kind == 'user_study':
-      study.update_metadata(build_md(st['entries']))
+      # every other update is handed over as a view positioned inside one of its namespaces
+      pos = list(st['entries'][0][0]) if (step_no % 2 and st['entries']) else None
+      if pos is not None:
+        ctx.count('user_updates_given_as_positioned_views')
+      study.update_metadata(build_md(st['entries'], pos))
       apply(m_study, st['entries'])
       ctx.count('updates_applied')
     elif kind == 'user_trial':
-      clients.Trial(vc, st['trial']).update_metadata(build_md(st['entries']))
+      pos = list(st['entries'][0][0]) if (step_no % 2 and st['entries']) else None
+      if pos is not None:
+        ctx.count('user_updates_given_as_positioned_views')
+      clients.Trial(vc, st['trial']).update_metadata(build_md(st['entries'], pos))
       apply(m_trials.setdefault(st['trial'], {}), st['entries'])
       ctx.count('updates_applied')
     elif kind in ('user_missing_trial', 'mixed_missing'):
@@ -288,6 +306,7 @@ def run_supporter_case(ctx, index):
   from vizier import pyvizier as vz
   from vizier._src.pythia import local_policy_supporters
   rng = ctx.rng(index, 'supporter')
+  prng = ctx.rng(index, 'supporter-position')
   problem = vz.ProblemStatement()
   problem.search_space.root.add_float_param('x', 0.0, 1.0)
   problem.metric_information.append(vz.MetricInformation('obj', goal=vz.ObjectiveMetricGoal.MAXIMIZE))
@@ -299,7 +318,12 @@ def run_supporter_case(ctx, index):
     se = gen_entries(rng) if rng.random() < 0.7 else []
     te = {rng.choice([1, 2]): gen_entries(rng)} if rng.random() < 0.6 else {}
     steps.append([se, {str(k): v for k, v in te.items()}])
-    delta = vz.MetadataDelta(on_study=build_md(se), on_trials={int(k): build_md(v) for k, v in te.items()})
+    pos_s, pos_t = pick_position(prng, se), {k: pick_position(prng, v) for k, v in te.items()}
+    if pos_s is not None or any(v is not None for v in pos_t.values()):
+      ctx.count('supporter_deltas_given_as_positioned_views')
+    steps[-1].append([pos_s, {str(k): v for k, v in pos_t.items()}])
+    delta = vz.MetadataDelta(on_study=build_md(se, pos_s),
+                             on_trials={int(k): build_md(v, pos_t[k]) for k, v in te.items()})
     sup.SuggestTrials(_DeltaPolicy(delta), count=1)
     ctx.count('supporter_updates')
     for ns, key, spec in se:
